@@ -14,7 +14,7 @@ if [ "$REPO" != "/repo" ]; then
   sed -i "s#=> /repo/pkg/go#=> $REPO/pkg/go#" go.mod
 fi
 echo "matrix: verif=$ROOT repo=$REPO tier=$TIER"
-for d in seeded/C*-m*; do
+for d in seeded/C??-*; do
   id=$(basename "$d"); prop=${id%%-*}
   [ -n "${MATRIX_ONLY:-}" ] && [[ ! " $MATRIX_ONLY " =~ " $id " ]] && continue
   if ! git -C "$REPO" apply --check "$ROOT/$d/patch.diff" 2>/dev/null; then echo "$id: PATCH-DOES-NOT-APPLY"; continue; fi
